@@ -19,30 +19,17 @@ ASSUMPTIONS = [
     "the synchronous driver is validated against the public-API driver on all short histories (conformance scenarios) "
     "and on every reported violation",
 ]
-SPEC = {'conf_quick': [('K10', 3)],
- 'conf_thorough': [('K10', 4), ('K4', 3)],
- 'quick': [('K1', 'ar', 6),
-           ('K13', 'lend', 4), ('K1', 'lend', 4), ('K10', 'lend', 4), ('K14', 'lend', 4), ('K2', 'std', 3)],
- 'thorough': [('K1', 'ar', 8),
-              ('K10', 'ar', 8),
-              ('K13', 'ar', 8),
-              ('K1', 'std', 4),
-              ('K2', 'std', 4),
-              ('K3', 'std', 4),
-              ('K4', 'std', 4),
-              ('K6', 'std', 4),
-              ('K8', 'std', 4),
-              ('K10', 'std', 4),
-              ('K13', 'std', 4),
-              ('K14', 'std', 4),
-              ('K7', 'std', 3),
-              ('K4', 'small', 5),
-              ('K10', 'small', 5),
-              ('K13', 'lend', 5),
-              ('K1', 'lend', 5),
-              ('K10', 'lend', 5),
-              ('K14', 'lend', 5),
-              ('lasso', 'K13', 'lend', 3, 8)]}
+SPEC = {
+    'quick': [('K1', 'ar', 6),
+              ('K13', 'lend', 4),
+              ('K1', 'lend', 4),
+              ('K10', 'lend', 4),
+              ('K14', 'lend', 4),
+              ('K2', 'std', 3)],
+    'conf_quick': [('K10', 3)],
+    'conf_thorough': [('K10', 3), ('K4', 3)],
+}
+SPEC['thorough'] = X.thorough_spec(SPEC['quick'], [('K13', 'lend'), ('K10', 'lend'), ('K14', 'lend')])
 BOUNDS = {t: dict(spec=SPEC[t]) for t in ("quick", "thorough")}
 EXPLANATION = ("explicit-state BFS over operation histories with state de-duplication; every transition executes the "
                "real exchange; traces_validated_against_impl = histories executed through BOTH drivers (sync and "
